@@ -112,12 +112,18 @@ func VH22b_device() {
 	n := verif.Choice("devices", verif.Param("N", 2)+1)
 	lab = "C09/device/" + trans[verif.Param("tran", 0)]
 	hop := func(i int) (string, map[string]interface{}) { return e2eAddr("9" + string(rune(0x30+i))) }
-	rep := vp.New("rep")
+	// request/reply or survey/response through the same chain of devices
+	server, front0, back0, client := "rep", "xrep", "xreq", "req"
+	if verif.Choice("kind", 2) == 1 {
+		server, front0, back0, client = "respondent", "xrespondent", "xsurveyor", "surveyor"
+		lab += "/survey"
+	}
+	rep := vp.New(server)
 	a0, o0 := hop(0)
 	verif.Assert(rep.ListenOptions(a0, o0) == nil, lab+"/rep-listen")
 	var devs []mangos.Socket
 	for i := 0; i < n; i++ {
-		front, back := vp.New("xrep"), vp.New("xreq")
+		front, back := vp.New(front0), vp.New(back0)
 		ab, ob := hop(i)
 		af, of := hop(i + 1)
 		verif.Assert(back.DialOptions(ab, ob) == nil, lab+"/device-dial")
@@ -126,7 +132,7 @@ func VH22b_device() {
 		devs = append(devs, front, back)
 	}
 	entry, eo := hop(n)
-	c1, c2 := vp.New("req"), vp.New("req")
+	c1, c2 := vp.New(client), vp.New(client)
 	verif.Assert(c1.DialOptions(entry, eo) == nil && c2.DialOptions(entry, eo) == nil, lab+"/clients-dial")
 	verif.Quiesce()
 	q1 := []byte{'1', verif.Byte("q1")}
@@ -285,4 +291,56 @@ func VH22d_inproc_close() {
 	}
 	verif.Assert(g2.Done(), lab+"/dial-never-returned")
 	verif.Assert(verif.LiveGoroutines() == 0, lab+"/goroutines-left-after-close")
+}
+
+// VH22f_device_oneway: the one-way and symmetric patterns through a chain of
+// 0..N devices (forwarders between two raw sockets): a payload of arbitrary
+// bytes followed by a sentinel arrives unchanged, once each, in order.
+func VH22f_device_oneway() {
+	kinds := [][4]string{{"push", "xpull", "xpush", "pull"}, {"pub", "xsub", "xpub", "sub"}, {"pair", "xpair", "xpair", "pair"},
+		{"pair1", "xpair1", "xpair1", "pair1"}, {"bus", "xbus", "xbus", "bus"}, {"star", "xstar", "xstar", "star"}}
+	k := kinds[verif.Choice("kind", len(kinds))]
+	lab := "C09/device/" + trans[verif.Param("tran", 0)] + "/" + k[0]
+	n := verif.Choice("devices", verif.Param("N", 2)+1)
+	hop := func(i int) (string, map[string]interface{}) { return e2eAddr("8" + string(rune(0x30+i))) }
+	rx := vp.New(k[3])
+	if k[3] == "sub" {
+		rx.SetOption(mangos.OptionSubscribe, []byte{})
+	}
+	a0, o0 := hop(0)
+	verif.Assert(rx.ListenOptions(a0, o0) == nil, lab+"/listen")
+	var devs []mangos.Socket
+	for i := 0; i < n; i++ {
+		front, back := vp.New(k[1]), vp.New(k[2])
+		ab, ob := hop(i)
+		af, of := hop(i + 1)
+		verif.Assert(back.DialOptions(ab, ob) == nil, lab+"/device-dial")
+		verif.Assert(front.ListenOptions(af, of) == nil, lab+"/device-listen")
+		verif.Assert(mangos.Device(front, back) == nil, lab+"/device")
+		devs = append(devs, front, back)
+	}
+	tx := vp.New(k[0])
+	an, on := hop(n)
+	verif.Assert(tx.DialOptions(an, on) == nil, lab+"/dial")
+	verif.Quiesce()
+	body := verif.Bytes("body", verif.Choice("len", 3))
+	verif.Assert(tx.Send(body) == nil, lab+"/send")
+	verif.Quiesce()
+	verif.Assert(tx.Send([]byte{'S', 'E', 'N', 'T'}) == nil, lab+"/send-sentinel")
+	verif.Quiesce()
+	got, err, done := recvOne(rx)
+	verif.Assert(done && err == nil, lab+"/payload-did-not-cross-the-devices")
+	if done && err == nil {
+		verif.Assert(len(got) == len(body) && verif.BytesEq(got, body), lab+"/payload-changed-by-the-devices")
+	}
+	got2, err2, done2 := recvOne(rx)
+	verif.Assert(done2 && err2 == nil && verif.BytesEq(got2, []byte{'S', 'E', 'N', 'T'}), lab+"/messages-merged-split-or-lost")
+	_, _, done3 := recvOne(rx)
+	verif.Assert(!done3, lab+"/duplicate-delivered-by-the-devices")
+	verif.Reach("oneway-chain-checked")
+	tx.Close()
+	rx.Close()
+	for _, d := range devs {
+		d.Close()
+	}
 }
